@@ -14,10 +14,11 @@ W=$(mktemp -d /tmp/teakra-cov-XXXXXX); trap 'rm -rf "$W"' EXIT
 mkdir -p coverage
 SCEN="C06 C07 C08 C09 C11 C12 C13 C14 C15 C15F C16 C16F C17 C18"
 run_one() {
-  local s=$1 j
+  local s=$1 j n=$N
+  [ $s = C18 ] && n=$((N*20))   # the chaos scenario is the one meant to reach every instruction handler: give it a quick run's worth
   for j in 0 1 2 3; do
-    TEAKSIM_NO_ISOLATE=1 LLVM_PROFILE_FILE=$W/$s-$j.profraw $EXE worker $s --seed 1 --start $j --stride 4 --budget-s 900 \
-      --max-runs $((N/4)) --outdir $W --tier quick > $W/$s-$j.log 2>/dev/null &
+    TEAKSIM_NO_ISOLATE=1 LLVM_PROFILE_FILE=$W/$s-$j.profraw $EXE worker $s --seed 1 --start $j --stride 4 --budget-s 1800 \
+      --max-runs $((n/4)) --outdir $W --tier quick > $W/$s-$j.log 2>/dev/null &
   done
   wait
   llvm-profdata-14 merge -o $W/$s.profdata $W/$s-*.profraw 2>/dev/null
@@ -48,7 +49,7 @@ for s in scen:
             files.append(f)
 print("# Reach of the simulation scenarios inside the repository")
 print()
-print("Produced by `tools/coverage.sh %s` (%s seeded plans per scenario, seed 1, quick-tier generators, clang source-based" % (N, N))
+print("Produced by `tools/coverage.sh %s` (%s seeded plans per scenario, 20 times as many for C18, seed 1, quick-tier generators, clang source-based" % (N, N))
 print("coverage at -O1, executed in-process). Cells are line coverage of that file by that scenario alone; `all` merges the")
 print("scenarios. The C19 scenario is not in the table (TSan build only; see the script header). A check's quick run executes")
 print("tens to hundreds of times more plans than this sample, so these figures are lower bounds of what the checks reach.")
